@@ -58,13 +58,16 @@ def canonicalize_addition(expr: AffineBinaryOpExpr) -> AffineExpr:
     if dim_rhs is not None:
         if dim_lhs is None or dim_lhs > dim_rhs:
             new_expr = expr.rhs + expr.lhs
-            # TODO: make __add__ typing more specific in xdsl to avoid this
-            assert isinstance(new_expr, AffineBinaryOpExpr)
+            # the addition may have been folded by xdsl (e.g. x + 0): nothing left to reorder
+            if not isinstance(new_expr, AffineBinaryOpExpr):
+                return new_expr
             expr = new_expr
     # turn (a + b) + c into a + (b + c)
     if isinstance(expr.lhs, AffineBinaryOpExpr) and expr.lhs.kind is AffineBinaryOpKind.Add:
         new_expr = expr.lhs.lhs + (expr.lhs.rhs + expr.rhs)
-        assert isinstance(new_expr, AffineBinaryOpExpr)
+        # (a + -1) + 1 folds to a: the result need not be a binary expression anymore
+        if not isinstance(new_expr, AffineBinaryOpExpr):
+            return new_expr
         expr = new_expr
     return expr
 
@@ -96,7 +99,8 @@ def canonicalize_multiplication(expr: AffineBinaryOpExpr) -> AffineExpr:
         # turn (a + b) * cst into (a * cst) + (b * cst)
         if isinstance(expr.lhs, AffineBinaryOpExpr) and expr.lhs.kind is AffineBinaryOpKind.Add:
             new_expr = (expr.lhs.lhs * expr.rhs) + (expr.lhs.rhs * expr.rhs)
-            assert isinstance(new_expr, AffineBinaryOpExpr)
+            if not isinstance(new_expr, AffineBinaryOpExpr):
+                return new_expr
             expr = new_expr
     return expr
 
